@@ -28,6 +28,14 @@ func main() {
 		for _, id := range ids {
 			fmt.Println(id)
 		}
+	case "fingerprints":
+		p, err := core.Load()
+		if err != nil {
+			fmt.Fprintln(os.Stderr, err)
+			os.Exit(2)
+		}
+		b, _ := json.MarshalIndent(p.Fingerprints(), "", " ")
+		fmt.Println(string(b))
 	case "check":
 		if len(os.Args) < 3 {
 			usage()
